@@ -62,6 +62,7 @@ class Oracle:
             if f.name == 'is_compatible_to' and f.clsT:
                 self.compat_fn.setdefault(f.clsT, f)
         self._compat = {}
+        self._truth = {}
 
     # -- is_compatible_to truth sets
     def _effective_compat_fn(self, full):
@@ -88,21 +89,85 @@ class Oracle:
         f = self._effective_compat_fn(full)
         res = None
         if f is not None:
-            rets = [n for n in f.all_nodes() if n.get('k') == 'return' and 'sub' in n]
-            if len(rets) != 1 or len(f.params) != 1:
-                raise Shape('%s: is_compatible_to is not a single-return function of one parameter' % f.full)
-            pd = f.params[0]['d']
-            acc = set()
-            for name, v in self.enum_by_name.items():
-                if self._eval(f, rets[0]['sub'], pd, v):
-                    acc.add(name)
-            res = frozenset(acc)
+            res = self.truth_set(f)
         self._compat[full] = res
         return res
 
-    def _eval(self, f, nid, pd, v):
+    def truth_set(self, f):
+        """exact set of enumerator names for which the predicate f(item_type) returns true: the body is evaluated for every
+        enumerator (finite domain) -- equality, range and bit tests, casts, named locals, early returns, switch."""
+        key = id(f)
+        if key in self._truth:
+            return self._truth[key]
+        if len(f.params) != 1 or not f.has_cfg:
+            raise Shape('%s: not a predicate of one parameter' % f.full)
+        pd = f.params[0]['d']
+        acc = set()
+        for name, v in self.enum_by_name.items():
+            if self._run(f, pd, v):
+                acc.add(name)
+        self._truth[key] = frozenset(acc)
+        return self._truth[key]
+
+    def _run(self, f, pd, v):
+        b = f.entry
+        seen = set()
+        while True:
+            if b in seen:
+                raise Shape('%s: loop in an is_compatible_to predicate' % f.full)
+            seen.add(b)
+            blk = f.blocks[b]
+            for e in blk['elems']:
+                n = f.nodes[e]
+                if n.get('k') == 'return':
+                    if 'sub' not in n:
+                        raise Shape('%s: return without value' % f.full)
+                    return bool(self._eval(f, n['sub'], pd, v))
+                if n.get('k') == 'throw':
+                    raise Shape('%s: predicate throws' % f.full)
+            succs = blk['succs']
+            if blk.get('termcls') == 'SwitchStmt':
+                val = self._eval(f, blk['cond'], pd, v)
+                match = dflt = after = None
+                for s_ in succs:
+                    if s_ is None:
+                        continue
+                    lab = f.blocks[s_].get('label') or {}
+                    if 'case' in lab:
+                        if f.const_value(lab['case']) == val:
+                            match = s_
+                    elif lab.get('default'):
+                        dflt = s_
+                    else:
+                        after = s_
+                nxt = match if match is not None else (dflt if dflt is not None else after)
+            elif 'cond' in blk and len(succs) == 2:
+                nxt = succs[0] if self._eval(f, blk['cond'], pd, v) else succs[1]
+            else:
+                live = [x for x in succs if x is not None]
+                nxt = live[0] if len(live) == 1 else None
+            if nxt is None or b == f.exit:
+                raise Shape('%s: a path of the predicate ends without a return value' % f.full)
+            b = nxt
+
+    def _local_init(self, f, d):
+        init = None
+        for n in f.all_nodes():
+            if n.get('k') == 'decl':
+                for x in n['vars']:
+                    if x['d'] == d:
+                        if init is not None or not isinstance(x.get('init'), int):
+                            return None
+                        init = x['init']
+            elif n.get('k') == 'assign':
+                l = f.sn(n['lhs'])
+                if l is not None and l.get('k') == 'var' and l.get('d') == d:
+                    return None
+        return init
+
+    def _eval(self, f, nid, pd, v, depth=0):
         n = f.sn(nid)
-        if n is None:
+        if n is None or depth > 60:
             raise Shape('%s: cannot evaluate is_compatible_to body' % f.full)
         k = n.get('k')
         if k == 'var' and n.get('d') == pd:
@@ -110,21 +175,46 @@ class Oracle:
         cv = f.const_value(nid)
         if cv is not None:
             return cv
+        ev = lambda x: self._eval(f, x, pd, v, depth + 1)
+        if k == 'var' and n.get('vk') == 'local':
+            init = self._local_init(f, n['d'])
+            if init is not None:
+                return ev(init)
         if k == 'binop':
             op = n['op']
             if op == '||':
-                return bool(self._eval(f, n['lhs'], pd, v)) or bool(self._eval(f, n['rhs'], pd, v))
+                return bool(ev(n['lhs'])) or bool(ev(n['rhs']))
             if op == '&&':
-                return bool(self._eval(f, n['lhs'], pd, v)) and bool(self._eval(f, n['rhs'], pd, v))
-            a, b = self._eval(f, n['lhs'], pd, v), self._eval(f, n['rhs'], pd, v)
-            if op == '==':
-                return a == b
-            if op == '!=':
-                return a != b
-        if k == 'unop' and n['op'] == '!':
-            return not self._eval(f, n['sub'], pd, v)
+                return bool(ev(n['lhs'])) and bool(ev(n['rhs']))
+            if op == ',':
+                return ev(n['rhs'])
+            a, b = int(ev(n['lhs'])), int(ev(n['rhs']))
+            table = {'==': lambda: a == b, '!=': lambda: a != b, '<': lambda: a < b, '<=': lambda: a <= b, '>': lambda: a > b,
+                     '>=': lambda: a >= b, '&': lambda: a & b, '|': lambda: a | b, '^': lambda: a ^ b, '+': lambda: a + b,
+                     '-': lambda: a - b, '*': lambda: a * b, '<<': lambda: a << b if 0 <= b < 64 else None,
+                     '>>': lambda: a >> b if 0 <= b < 64 else None,
+                     '/': lambda: None if b == 0 or a < 0 or b < 0 else a // b, '%': lambda: None if b == 0 or a < 0 or b < 0 else a % b}
+            if op in table:
+                r = table[op]()
+                if r is not None:
+                    return r
+        if k == 'unop':
+            if n['op'] == '!':
+                return not ev(n['sub'])
+            if n['op'] == '-':
+                return -int(ev(n['sub']))
+            if n['op'] == '+':
+                return int(ev(n['sub']))
         if k == 'cast':
-            return self._eval(f, n['sub'], pd, v)
+            # casts between the enum and integer types wide enough for its values keep the value
+            return ev(n['sub'])
+        if k == 'condop':
+            return ev(n['then']) if ev(n['cond']) else ev(n['else'])
+        if k == 'call' and 'u' in n and n.get('args') is not None:
+            # another predicate of the same shape (is_compatible_to of a base, a constexpr helper of one argument)
+            for g in self.fb.by_usr.get(n['u'], []):
+                if g.has_cfg and len(g.params) == 1 and len(n.get('args', [])) == 1 and depth < 20:
+                    return self._run(g, g.params[0]['d'], int(ev(n['args'][0])))
         raise Shape('%s: is_compatible_to uses an expression form the evaluator does not know (%s)' % (f.full, f.expr(nid)))
 
     # -- handler callback tables
